@@ -1,7 +1,8 @@
 (* Props/C18.v — spans: the algebra every parent span is computed with, and positions. *)
 From Coq Require Import ZArith List Bool.
 From Rscel Require Import Base.Prims Model.Value Model.Lexer Model.Ast Model.Parser.
-From Rscel Require Import Proofs.Literals Proofs.Spans.
+From Rscel Require Import Proofs.Literals Proofs.Spans Proofs.ParseSpans.
+Import Coq.Strings.String.StringSyntax.
 Import ListNotations.
 Open Scope Z_scope.
 
@@ -53,3 +54,25 @@ Theorem C18_segment_error_at_literal : forall rec_src at_ segs t l,
   check_segments rec_src at_ segs t = PErr l -> l = at_.
 Proof. exact segment_error_at_literal. Qed.
 Print Assumptions C18_segment_error_at_literal.
+
+(** * Nesting, for every tree the parser returns and at every depth of it: a node that is built from operands
+    spans them - the binary operators of all five levels, prefix runs and postfix chains (the member spans
+    its primary and every postfix operator, a field access spans its name), the outer operands of a
+    conditional, match arms (pattern and arm) and map entries (key and value); a node without an operator
+    has exactly its operand's span.  ([sp] is the conjunction of these facts over the whole tree.) *)
+Theorem C18_parser_spans_nest : forall fuel depth t e t', p_expr_at fuel depth t = POk e t' -> sp fuel e.
+Proof. exact parser_spans_nest. Qed.
+Print Assumptions C18_parser_spans_nest.
+
+Theorem C18_program_spans_nest : forall fuel src e t, parse_program fuel src = POk e t -> sp fuel e.
+Proof. exact program_spans_nest. Qed.
+Print Assumptions C18_program_spans_nest.
+
+(** what [sp] says at the root of a conditional, spelled out *)
+Example C18_spans_nest_unfolded : forall f r c t e,
+  sp (S f) (ETernary r c t e) -> within (cor_range c) r /\ within (expr_range e) r /\ sp_cor (sp f) c /\ sp_cor (sp f) t /\ sp f e.
+Proof. intros f r c t e H. exact H. Qed.
+
+Example C18_spans_nest_somewhere :
+  match parse_program 40 #"a + b * -c.d[0] ? {'k': f(x)} : match y { case 1: [2] }" with POk _ _ => true | _ => false end = true.
+Proof. vm_compute. reflexivity. Qed.
